@@ -14,7 +14,8 @@ def clsStr : ErrClass → String
 
 def payloadOf? : String → Option PayloadKind
   | "status" => some .statusJson | "other-json" => some .otherJson | "text" => some .text
-  | "empty" => some .empty | _ => none
+  | "empty" => some .empty | "other-value" => some .otherValue | "bad-details" => some .badDetails
+  | _ => none
 
 def hdrOf? : Json → Option Hdr
   | .null => some .absent
@@ -34,7 +35,13 @@ def faultOf? (j : Json) : Option Fault := do
     let h ← hdrOf? h
     let p ← jStr? p >>= payloadOf?
     let d ← jOpt? jInt? d
-    some (.http ⟨st, h, p, d⟩)
+    some (.http ⟨st, h, p, d, false⟩)
+  | [.str "http", st, h, p, d, bad] =>
+    let st ← jNat? st
+    let h ← hdrOf? h
+    let p ← jStr? p >>= payloadOf?
+    let d ← jOpt? jInt? d
+    some (.http ⟨st, h, p, d, ← jBool? bad⟩)
   | [.str "exc", a, b, c, d, e] =>
     some (.exc (← jBool? a) (← jBool? b) (← jBool? c) (← jBool? d) (← jBool? e))
   | _ => none
@@ -188,6 +195,14 @@ def handle : DrvHandler := fun op args =>
       let script ← (← jArr? script).mapM attOf?
       let t0 ← jInt? t0
       let r := request bo enforce script t0
+      some (ok (Json.mkObj [("times", jInts r.times), ("waits", jInts r.waits),
+                            ("outcome", outcomeJ r.outcome), ("fin", jInt r.fin)]))
+  | "C12.getjson", [cfg, script, t0, fails] => do
+      let bo ← backoffsOf? (← jField? cfg "backoffs")
+      let enforce ← jBool? (← jField? cfg "enforce")
+      let script ← (← jArr? script).mapM attOf?
+      let t0 ← jInt? t0
+      let r := getJson bo enforce script t0 (← jBool? fails)
       some (ok (Json.mkObj [("times", jInts r.times), ("waits", jInts r.waits),
                             ("outcome", outcomeJ r.outcome), ("fin", jInt r.fin)]))
   | "C12.throttle", [cfg, t0, cs] => do
